@@ -583,40 +583,59 @@ def l3(facts, rep, M):
 
 
 def l5(facts, rep, M):
-    """root check and root store each under Nomt.shared, both inside the live range of one access write guard"""
-    import guardfx
-
+    """every comparison of the committed root with a changeset's base and every store to the committed root
+    happens under Nomt.shared; every store is preceded, in the same function, by a comparison, and both lie
+    inside one acquisition of the access write guard (held in that function, or by every caller of a helper)"""
     n = 0
-    for fn in ("nomt::FinishedSession::commit", "nomt::FinishedSession::try_commit_nonblocking", "nomt::overlay::Overlay::commit", "nomt::overlay::Overlay::try_commit_nonblocking"):
-        body = facts.body(fn)
-        at_term, entry = M.held(body)
-        short = fn.split("::", 1)[1]
+    found_fns = 0
+    for body in facts.bodies.values():
+        if body.crate != "nomt" or "::tests::" in body.id or body.derived:
+            continue
         checks = []
         for b, t in body.calls():
             c = t.get("callee") or ""
-            if c.endswith("PartialEq::ne") or c.endswith("PartialEq::eq") or c.endswith("PartialEq>::ne") or c.endswith("PartialEq>::eq"):
-                if t["args"] and all(body.op_ty(a).replace("&", "").strip() == "nomt::Root" for a in t["args"]):
-                    checks.append((b, t.get("ln"), at_term.get(b, set())))
+            if (c.endswith("PartialEq::ne") or c.endswith("PartialEq::eq") or c.endswith("PartialEq>::ne") or c.endswith("PartialEq>::eq")) and t["args"]:
+                if all(body.op_ty(a).replace("&", "").strip() == "nomt::Root" for a in t["args"]):
+                    if any(any(r.path and r.path[-1] == ("root", "nomt::Shared") for r in trace(body, a)) for a in t["args"]):
+                        checks.append((b, t.get("ln")))
         stores = []
         for b in range(body.n):
             if body.is_cleanup(b):
                 continue
-            for s in body.stmts(b):
-                if s["k"] == "assign" and fields_of(s["pl"])[-1:] == ("root",) and s["pl"].get("o", [""])[-1] == "nomt::Shared":
-                    stores.append((b, s.get("ln"), entry.get(b, set()) | at_term.get(b, set())))
-        n += 1
-        if not rep.check(bool(checks) and bool(stores), "L5", short, "check-and-set-present", "cannot find the previous-root comparison and the root store in %s" % fn, site=body.span, detail="%d comparison(s), %d store(s)" % (len(checks), len(stores))):
+            for s_ in body.stmts(b):
+                if s_["k"] == "assign" and fields_of(s_["pl"])[-1:] == ("root",) and (s_["pl"].get("o") or [""])[-1] == "nomt::Shared":
+                    stores.append((b, s_.get("ln")))
+        if not checks and not stores:
             continue
-        for (b, ln, H) in checks + stores:
+        found_fns += 1
+        short = body.id.split("::", 1)[1]
+        at_term, entry = M.held(body)
+        for (b, ln) in checks + stores:
             n += 1
-            what = "comparison" if (b, ln, H) in checks else "store"
+            what = "comparison" if (b, ln) in checks else "store"
+            H = entry.get(b, set()) | at_term.get(b, set())
             rep.check(any(cls == SHARED for (_l, cls, _m) in H), "L5", short, "%s-under-shared" % what, "the root %s at %s is not performed under the Nomt.shared mutex" % (what, ln), site=ln, detail="root %s at %s under Nomt.shared" % (what, ln))
-        # one access write guard acquisition covers both: same guard local held at both points
-        n += 1
-        wl_c = [{l for (l, cls, m) in H if cls == ACCESS and m == "W"} for (_b, _ln, H) in checks]
-        wl_s = [{l for (l, cls, m) in H if cls == ACCESS and m == "W"} for (_b, _ln, H) in stores]
-        common = set.intersection(*(wl_c + wl_s)) if (wl_c and wl_s) else set()
-        rep.check(bool(common), "L5", short, "one-write-guard", "the previous-root check and the root update of %s are not covered by one and the same access write-guard acquisition: a competing commit can slip in between" % fn, site=body.span, detail="guard local(s) %s held at the comparison and at the store" % sorted(common))
+        for (sb, sln) in stores:
+            n += 1
+            doms = [(cb, cln) for (cb, cln) in checks if cb != sb and body.dominates(cb, sb)]
+            if not rep.check(bool(doms), "L5", short, "store-after-check", "the committed root is overwritten at %s without a preceding comparison with the changeset's base in the same function" % sln, site=sln, detail="store at %s dominated by the comparison at %s" % (sln, [c[1] for c in doms])):
+                continue
+            n += 1
+            Hs = entry.get(sb, set()) | at_term.get(sb, set())
+            ws = {l for (l, cls, m) in Hs if cls == ACCESS and m == "W"}
+            ok = False
+            why = ""
+            for (cb, cln) in doms:
+                Hc = entry.get(cb, set()) | at_term.get(cb, set())
+                wc = {l for (l, cls, m) in Hc if cls == ACCESS and m == "W"}
+                if ws & wc:
+                    ok = True
+                    why = "the same write-guard local %s is held at the comparison (%s) and at the store (%s)" % (sorted(ws & wc), cln, sln)
+                elif not ws and not wc and effectively_held(facts, M, body, sb, ACCESS, "W") and effectively_held(facts, M, body, cb, ACCESS, "W"):
+                    ok = True
+                    why = "helper: every caller holds the access write guard across the call"
+            rep.check(ok, "L5", short, "one-write-guard", "the previous-root check and the root update in %s are not covered by one and the same access write-guard acquisition: a competing commit can slip in between" % body.id, site=sln, detail=why)
+    rep.floor("L5 functions with root check / store", found_fns, 4)
     return n
 
 
